@@ -26,5 +26,15 @@ def io_normal(x, mu=0.2, sigma=1.3):
     return np.exp(-0.5 * ((x - mu) / sigma) ** 2) / np.sqrt(2.0 * np.pi * sigma**2)
 
 
+def io_custom_cost(a=1.0, b=2.0):
+    return (a - 1.3) ** 2 / 0.04 + (b + 0.4) ** 2 / 0.09 + 0.5 * a * b
+
+
+def io_custom_cost3(p=0.5, q=1.0, r=-1.0):
+    return (p - 0.7) ** 2 / 0.01 + (q - 1.5) ** 2 / 0.25 + (r + 0.2) ** 2 + 0.1 * p * q * r
+
+
+CUSTOM = {"io_custom_cost": (io_custom_cost, ["a", "b"], [1.0, 2.0]), "io_custom_cost3": (io_custom_cost3, ["p", "q", "r"], [0.5, 1.0, -1.0])}
+
 XY = {"io_linear": (io_linear, ["a", "b"], [1.0, 0.5]), "io_quadratic": (io_quadratic, ["a", "b", "c"], [0.5, 1.0, 2.0]), "io_expo": (io_expo, ["A", "k"], [2.0, 0.3])}
 IDX = {"io_idx4": (io_idx4, 4, ["a", "b"], [1.5, 2.0]), "io_idx6": (io_idx6, 6, ["a", "b", "c"], [1.0, 1.0, 3.0])}
